@@ -112,7 +112,7 @@ def thread_definitions():
     return out
 
 
-def decode_pass(ctx, prefix, keys, n, points):
+def decode_pass(ctx, prefix, keys, n, points, mode="decode"):
     """Two decoders in two threads, one forced context switch at every library line of a decode (vf/threads.py): each call returns what it
     returns when run alone."""
     from nmea2000.decoder import NMEA2000Decoder
@@ -126,6 +126,10 @@ def decode_pass(ctx, prefix, keys, n, points):
                 return []
 
             def call(payload, nbytes):
+                if mode == "encode":
+                    from nmea2000.encoder import NMEA2000Encoder
+                    msg = NMEA2000Decoder().decode_basic_string(gen.basic_string(d.pgn, payload, nbytes, src=77), already_combined=True)
+                    return lambda: NMEA2000Encoder().encode_actisense(msg)
                 return lambda: traffic.canon(NMEA2000Decoder().decode_basic_string(gen.basic_string(d.pgn, payload, nbytes, src=77), already_combined=True))
             try:
                 alone_a, alone_b = call(a, na)(), call(b, nb)()
@@ -140,10 +144,10 @@ def decode_pass(ctx, prefix, keys, n, points):
                     ctx.nontrivial_extra += 1
                 if ra != alone_a or rb != alone_b:
                     which = "suspended" if ra != alone_a else "other"
-                    res.append((f"{prefix}|threads|{which}-call-differs", f"{d.key}: decoder A suspended before its library line {k} of {lines} while decoder B (another thread) "
-                                f"decodes another payload: {'A' if ra != alone_a else 'B'} returns {str(ra if ra != alone_a else rb)[:300]}, alone "
+                    res.append((f"{prefix}|threads|{which}-call-differs", f"{d.key}: {mode}r A suspended before its library line {k} of {lines} while {mode}r B (another thread) "
+                                f"{mode}s another payload: {'A' if ra != alone_a else 'B'} returns {str(ra if ra != alone_a else rb)[:300]}, alone "
                                 f"{str(alone_a if ra != alone_a else alone_b)[:300]}",
-                                {"threads": True, "definition": d.key, "a_hex": a.to_bytes(na, "little").hex(), "b_hex": b.to_bytes(nb, "little").hex(), "k": k}))
+                                {"threads": True, "definition": d.key, "a_hex": a.to_bytes(na, "little").hex(), "b_hex": b.to_bytes(nb, "little").hex(), "k": k, "mode": mode}))
                     break
             return res
         ctx.hyp(one, gen.payloads(d, mode="accepted", extra_bytes=False), gen.payloads(d, mode="accepted", extra_bytes=False), max_examples=n, name="threads",
@@ -159,6 +163,10 @@ def decode_replay(prefix, case):
     a, b = bytes.fromhex(case["a_hex"]), bytes.fromhex(case["b_hex"])
 
     def call(data):
+        if case.get("mode") == "encode":
+            from nmea2000.encoder import NMEA2000Encoder
+            msg = NMEA2000Decoder().decode_basic_string(gen.basic_string(d.pgn, int.from_bytes(data, "little"), len(data), src=77), already_combined=True)
+            return lambda: NMEA2000Encoder().encode_actisense(msg)
         return lambda: traffic.canon(NMEA2000Decoder().decode_basic_string(gen.basic_string(d.pgn, int.from_bytes(data, "little"), len(data), src=77), already_combined=True))
     alone_a, alone_b = call(a)(), call(b)()
     ra, rb, _ = run_preempted(call(a), call(b), case["k"])
